@@ -36,23 +36,56 @@ import (
 // reads one extra byte with probability 1/2 (scheduler-dependent); one-byte reads are served from a
 // side stream so that every other read returns the same bytes for the same seed. Reads of two or
 // more bytes are logged.
+//
+// Reader disciplines (`mode`): "" / "full" as above; "one" serves one byte per Read, "short" a random
+// non-empty prefix of what was asked for, "zero" like "short" but every fourth Read returns (0, nil). Under
+// these every request — the one-byte probes included — is served from the main stream, whose bytes are
+// kept in `served` in the order they were handed out.
 type n2Reader struct {
 	main, side *Rng
 	log        [][]byte
+	mode       string
+	chunk      *Rng
+	served     []byte
 }
 
 func newN2Reader(seed uint64) *n2Reader {
-	return &n2Reader{main: NewRng(seed), side: NewRng(seed ^ 0x5bd1e995)}
+	return &n2Reader{main: NewRng(seed), side: NewRng(seed ^ 0x5bd1e995), chunk: NewRng(seed ^ 0x63686b)}
+}
+
+func newN2ReaderMode(seed uint64, mode string) *n2Reader {
+	r := newN2Reader(seed)
+	r.mode = mode
+	return r
 }
 
 func (r *n2Reader) Read(p []byte) (int, error) {
-	if len(p) == 1 {
-		r.side.Read(p)
-		return 1, nil
+	if r.mode == "" || r.mode == "full" {
+		if len(p) == 1 {
+			r.side.Read(p)
+			return 1, nil
+		}
+		r.main.Read(p)
+		r.log = append(r.log, append([]byte(nil), p...))
+		r.served = append(r.served, p...)
+		return len(p), nil
 	}
-	r.main.Read(p)
-	r.log = append(r.log, append([]byte(nil), p...))
-	return len(p), nil
+	if len(p) == 0 {
+		return 0, nil
+	}
+	k := 1
+	switch r.mode {
+	case "short":
+		k = 1 + r.chunk.Intn(len(p))
+	case "zero":
+		if r.chunk.Intn(4) == 0 {
+			return 0, nil
+		}
+		k = 1 + r.chunk.Intn(len(p))
+	}
+	r.main.Read(p[:k])
+	r.served = append(r.served, p[:k]...)
+	return k, nil
 }
 
 // ---- spec sources ----
@@ -421,6 +454,48 @@ func n2RunProbes(cs tls.ConnectionState, conn *tls.Conn, probes []n2Probe) (pub,
 	return
 }
 
+// n2PostBuild edits an already built UConn before Handshake:
+//
+//	rmext             delete the SNIExtension from uconn.Extensions
+//	extname:<hex>     set the SNIExtension's ServerName
+//	setsni:<hex>      UConn.SetSNI
+//	reapply-nosni     apply a fresh copy of the id's spec without SNIExtension (ApplyPreset on a built UConn)
+//	reapply           apply a fresh copy of the id's spec
+func n2PostBuild(u *tls.UConn, cl *n2Client, post string) error {
+	switch {
+	case post == "rmext":
+		var keep []tls.TLSExtension
+		for _, e := range u.Extensions {
+			if _, ok := e.(*tls.SNIExtension); !ok {
+				keep = append(keep, e)
+			}
+		}
+		u.Extensions = keep
+	case strings.HasPrefix(post, "extname:"):
+		for _, e := range u.Extensions {
+			if x, ok := e.(*tls.SNIExtension); ok {
+				x.ServerName = string(unhex(post[8:]))
+			}
+		}
+	case strings.HasPrefix(post, "setsni:"):
+		u.SetSNI(string(unhex(post[7:])))
+	case post == "reapply-nosni" || post == "reapply":
+		spec, err := tls.UTLSIdToSpec(cl.baseID)
+		if err != nil {
+			return err
+		}
+		if post == "reapply-nosni" {
+			if err := n2ApplyMods(&spec, "nosni"); err != nil {
+				return err
+			}
+		}
+		return u.ApplyPreset(&spec)
+	default:
+		return fmt.Errorf("harness: bad post %q", post)
+	}
+	return nil
+}
+
 func n2State(cs tls.ConnectionState) string {
 	b2i := func(b bool) int {
 		if b {
@@ -461,6 +536,18 @@ func n2Exec(in KV) string {
 	default:
 		return "out=bad-cert"
 	}
+	switch in["cauth"] {
+	case "", "none":
+	case "request":
+		scfg.ClientAuth = tls.RequestClientCert
+	case "require", "requestcert":
+		scfg.ClientAuth = tls.RequireAnyClientCert
+		if in["cauth"] == "requestcert" {
+			scfg.ClientAuth = tls.RequestClientCert
+		}
+	default:
+		return "out=bad-cauth"
+	}
 	hooks := &tls.VerifServerHooks{
 		RewriteHandshake: n.rewrite,
 		ForceSuiteTLS13:  negHex16(in["fs13"]),
@@ -471,6 +558,9 @@ func n2Exec(in KV) string {
 		sname = string(unhex(in["sname"]))
 	}
 	ccfg := &tls.Config{OmitEmptyPsk: cl.omitPsk, ServerName: sname, Rand: newN2Reader(seed)}
+	if in["cauth"] == "require" || in["cauth"] == "requestcert" {
+		ccfg.Certificates = []tls.Certificate{kit().leaf["ecdsa"]} // any certificate will do: the server does not verify it
+	}
 	if in["ech"] == "1" {
 		ccfg.EncryptedClientHelloConfigList = n2ECHKit().configList
 		ccfg.MinVersion = tls.VersionTLS13
@@ -521,6 +611,19 @@ func n2Exec(in KV) string {
 	var ecdheG, hybrid int
 	kx := "0,0,-,-"
 	var raw []byte
+	pre, post := in["pre"], in["post"]
+	snapped := false
+	snap := func(u *tls.UConn) {
+		cfgMin, cfgMax, ech = tls.VerifConfigVersions(u)
+		ecdheG, hybrid, kx = 0, 0, "0,0,-,-"
+		if ks := u.HandshakeState.State13.KeyShareKeys; ks != nil {
+			ecdheG = negCurveIDOf(ks.Ecdhe)
+			if ks.Mlkem != nil && ks.MlkemEcdhe != nil {
+				hybrid = 1
+			}
+			kx = negKeySet(ks)
+		}
+	}
 	var creneg, cems, sems int
 	var cpub, craw, spub, sraw []string
 	res := runHS(HSOpts{ID: cl.id, Spec: cl.spec, ClientCfg: ccfg, ServerCfg: scfg, Hooks: hooks, AppData: []byte("ping"),
@@ -530,23 +633,61 @@ func n2Exec(in KV) string {
 					return err
 				}
 			}
-			if err := u.BuildHandshakeState(); err != nil {
-				return err
-			}
-			cfgMin, cfgMax, ech = tls.VerifConfigVersions(u)
-			if ks := u.HandshakeState.State13.KeyShareKeys; ks != nil {
-				ecdheG = negCurveIDOf(ks.Ecdhe)
-				if ks.Mlkem != nil && ks.MlkemEcdhe != nil {
-					hybrid = 1
+			// what the caller does before Handshake (which itself calls BuildHandshakeState)
+			switch pre {
+			case "direct":
+			case "nosess":
+				if err := u.BuildHandshakeStateWithoutSession(); err != nil {
+					return err
 				}
-				kx = negKeySet(ks)
+			case "build2":
+				if err := u.BuildHandshakeState(); err != nil {
+					return err
+				}
+				if err := u.BuildHandshakeState(); err != nil {
+					return err
+				}
+			case "apply2": // the same custom spec object applied a second time
+				if cl.spec == nil {
+					return fmt.Errorf("harness: pre=apply2 needs a custom spec")
+				}
+				if err := u.ApplyPreset(cl.spec); err != nil {
+					return err
+				}
+			case "applyfresh": // a fresh copy of the same spec applied over the first application (a caller changing its mind)
+				if cl.spec == nil {
+					return fmt.Errorf("harness: pre=applyfresh needs a custom spec")
+				}
+				cl2, err := n2ClientFor(in)
+				if err != nil {
+					return err
+				}
+				if err := u.ApplyPreset(cl2.spec); err != nil {
+					return err
+				}
+			case "", "build":
+				if err := u.BuildHandshakeState(); err != nil {
+					return err
+				}
+			default:
+				return fmt.Errorf("harness: bad pre %q", pre)
 			}
-			raw = append([]byte(nil), u.HandshakeState.Hello.Raw...)
-			ci, ok := negParseCH(raw)
-			if !ok {
-				return fmt.Errorf("harness: unparsable ClientHello")
+			if post != "" {
+				if pre == "direct" || pre == "apply2" || pre == "applyfresh" {
+					if err := u.BuildHandshakeState(); err != nil {
+						return err
+					}
+				}
+				if err := n2PostBuild(u, cl, post); err != nil {
+					return err
+				}
 			}
-			n.ch = ci
+			if (pre == "" || pre == "build" || pre == "build2") && post == "" {
+				// the hello is final: snapshot what the checks consult
+				snap(u)
+				snapped = true
+				raw = append([]byte(nil), u.HandshakeState.Hello.Raw...)
+			}
 			return nil
 		},
 		AfterHandshake: func(u *tls.UConn) error {
@@ -569,8 +710,17 @@ func n2Exec(in KV) string {
 		return "out=prepare-error msg=" + sanitize(res.PrepareErr.Error())
 	}
 	hellos := clientHellos(res.ClientWire)
-	if in["ech"] != "1" && (len(hellos) == 0 || !bytes.Equal(hellos[0], raw)) {
+	if snapped && in["ech"] != "1" && (len(hellos) == 0 || !bytes.Equal(hellos[0], raw)) {
 		return "out=hello-changed"
+	}
+	if !snapped {
+		// the hello was (re)built inside Handshake: the Config range is unchanged by the handshake, and the key
+		// set is the one the handshake started from unless a HelloRetryRequest replaced it (the model does not
+		// consult the original key set after a retry that selects a group)
+		if len(hellos) == 0 {
+			return "out=no-hello-sent cerr=" + errClass(res.ClientErr)
+		}
+		snap(res.UConn)
 	}
 	wire := raw
 	if len(hellos) > 0 {
@@ -728,6 +878,10 @@ func n2ServerConfigs(ch *negCH, full bool, r *Rng, k int) [][2]string {
 		add("cert13-"+c, "smax=0304 cert="+c)
 		add("cert12-"+c, "smax=0303 cert="+c)
 	}
+	for _, a := range []string{"request", "require"} {
+		add("cauth13-"+a, "smax=0304 cauth="+a)
+		add("cauth12-"+a, "smax=0303 cauth="+a)
+	}
 	if full || k >= len(out) {
 		return out
 	}
@@ -781,6 +935,25 @@ var c10Findings = []struct{ tag, toks string }{
 
 type n2Case struct{ tag, toks string }
 
+// c10PreConfigs: the server choices the pre-handshake dimension is crossed with: both version caps, every key
+// share position (classical, hybrid, Kyber draft) and one HelloRetryRequest.
+func c10PreConfigs(ch *negCH) [][2]string {
+	var out [][2]string
+	hrr := false
+	for _, c := range n2ServerConfigs(ch, true, nil, 0) {
+		switch c[0] {
+		case "max13", "max12", "g13-share", "g13-kyber":
+			out = append(out, c)
+		case "g13-hrr":
+			if !hrr && !strings.Contains(c[1], "curves=4588") && !strings.Contains(c[1], "curves=25497") {
+				out = append(out, c)
+				hrr = true
+			}
+		}
+	}
+	return out
+}
+
 // c10Plan is the deterministic part of the grid (everything but seeds): built once per run.
 func c10Plan(r *Rng, tier string) []n2Case {
 	var plan []n2Case
@@ -799,6 +972,21 @@ func c10Plan(r *Rng, tier string) []n2Case {
 		for _, c := range n2ServerConfigs(ch, full, r, k) {
 			plan = append(plan, n2Case{"fp," + c[0], "id=" + name + " src=fp " + c[1]})
 		}
+		// what the caller does before Handshake: nothing / BuildHandshakeStateWithoutSession / BuildHandshakeState twice
+		// (the default everywhere else: BuildHandshakeState once) x every offered share position, one retry, both versions
+		for _, pre := range []string{"direct", "nosess", "build2"} {
+			for _, c := range c10PreConfigs(ch) {
+				plan = append(plan, n2Case{"parrot-" + pre + "," + c[0], "id=" + name + " src=parrot " + c[1] + " pre=" + pre})
+			}
+		}
+		// custom spec objects (the fingerprinted copy): applied once more, replaced by a fresh copy, or just handshaken
+		for _, pre := range []string{"direct", "apply2", "applyfresh"} {
+			for i, c := range c10PreConfigs(ch) {
+				if i%2 == 0 || full {
+					plan = append(plan, n2Case{"fp-" + pre + "," + c[0], "id=" + name + " src=fp " + c[1] + " pre=" + pre})
+				}
+			}
+		}
 	}
 	for _, cu := range c10Customs {
 		toks := "id=" + cu.id + " src=custom mods=" + cu.mods
@@ -812,6 +1000,15 @@ func c10Plan(r *Rng, tier string) []n2Case {
 				continue
 			}
 			plan = append(plan, n2Case{"custom," + c[0], toks + " " + c[1]})
+		}
+		if strings.Contains(cu.mods, "ks=") {
+			for _, pre := range []string{"direct", "apply2", "applyfresh", "nosess"} {
+				for _, c := range c10PreConfigs(ch) {
+					if strings.HasPrefix(c[0], "g13-") {
+						plan = append(plan, n2Case{"custom-" + pre + "," + c[0], toks + " " + c[1] + " pre=" + pre})
+					}
+				}
+			}
 		}
 	}
 	for _, f := range c10Findings {
